@@ -34,6 +34,7 @@ from hypothesis import strategies as st
 from vt.core import Reject, Violation, call_repo
 
 ID = 'C18'
+FULLY_EXHAUSTIVE = True  # the quantified domain (all 65340 valid codes) is finite and enumerated completely in both tiers
 NCAP, NCELL, NAZ = 12, 121, 45
 NCODES = NCAP * NCELL * NAZ  # 65340
 COVER_DEG = 4.0
